@@ -236,6 +236,9 @@ func (c *clCtx) block(ss []ast.Stmt) []string {
 					case be.Op == token.NEQ && c.isPath(be.X, "Timeout") && c.src(be.Y) == "0":
 						out = append(out, ".ifTimeout "+body())
 						continue
+					case be.Op == token.EQL && isIdent(be.X, "chunk") && c.src(be.Y) == `""`:
+						out = append(out, ".ifChunkEmpty "+body())
+						continue
 					case be.Op == token.NEQ && c.src(be.X) == "ack.Ack" && isIdent(be.Y, "chunk"):
 						out = append(out, ".ifAckMismatch "+body())
 						continue
